@@ -15,7 +15,7 @@ LEVEL = "fault_enumeration"
 TECHNIQUE = "deterministic network simulation, single-fault enumeration at every I/O step + seeded multi-fault histories, public slot probe"
 LEVEL_TEXT = (
     "Every single fault kind at every connect/send/recv step of sampled fault-free request histories, plus seeded random multi-fault histories, run against "
-    "the real pool over a simulated network; after each history a public-API probe counts slots, distinct connections and open sockets. Sampling, not proof."
+    "the real pool over a simulated network; after each history a public-API probe counts slots, distinct connections and open sockets, and no socket may have been left to the garbage collector (never closed by urllib3). Sampling, not proof."
 )
 LEVEL_NOTE = "trusted: the simulated socket/poll/clock semantics and the scripted peers; TLS via SSLTransport over MemoryBIO; bounded histories (<=5 requests, <=3 faults)"
 N = {"quick": 900, "thorough": 12000}
